@@ -390,7 +390,9 @@ func c08State(rep *report.Report, w *c08World, ops []explore.Op, bodies [][]int,
 		// succeeding one); precommit-ok: two succeeding pre-commit actions, the transaction commits
 		modes := []string{"commit", "caller-error", "precommit-F", "precommit-FS", "precommit-fQ", "precommit-ok"}
 		if bi%25 == 0 {
-			modes = append(modes, "batch")
+			// batch-retry: the function's first run fails with a transient error after its operations ran; bbolt's
+			// batch machinery then runs it again on its own, and that run commits
+			modes = append(modes, "batch", "batch-retry")
 		}
 		for _, mode := range modes {
 			w.mu.Lock()
@@ -399,8 +401,12 @@ func c08State(rep *report.Report, w *c08World, ops []explore.Op, bodies [][]int,
 			atomic.StoreInt64(&w.commit, 0)
 			atomic.StoreInt64(&w.txDone, 0)
 			w.curDb, w.afterTx, w.tooEarly = h.db, m, nil
+			attempts := 0
 			fn := func(ctx boltz.MutateContext) error {
-				ctx.AddCommitAction(func() { atomic.AddInt64(&w.commit, 1) })
+				attempts++
+				if mode != "batch-retry" {
+					ctx.AddCommitAction(func() { atomic.AddInt64(&w.commit, 1) })
+				}
 				switch mode {
 				case "precommit-F":
 					ctx.AddPreCommitAction(func(boltz.MutateContext) error { return errBoom })
@@ -428,11 +434,17 @@ func c08State(rep *report.Report, w *c08World, ops []explore.Op, bodies [][]int,
 				if mode == "caller-error" {
 					return errBoom
 				}
+				if mode == "batch-retry" {
+					if attempts == 1 {
+						return errBoom
+					}
+					ctx.AddCommitAction(func() { atomic.AddInt64(&w.commit, 1) }) // registered by the run that commits
+				}
 				return nil
 			}
 			var err error
 			ctx := boltz.NewMutateContext(context.Background())
-			if mode == "batch" {
+			if mode == "batch" || mode == "batch-retry" {
 				err = h.db.Batch(ctx, fn)
 			} else {
 				err = h.db.Update(ctx, fn)
@@ -513,7 +525,7 @@ func c08State(rep *report.Report, w *c08World, ops []explore.Op, bodies [][]int,
 			if n := atomic.LoadInt64(&w.commit); n != wantCommit {
 				rep.Violation("C08|commit-action-count|"+bodyName+"|"+mode, fmt.Sprintf("%s: commit action ran %d times, expected %d", label, n, wantCommit), replay)
 			}
-			if mode != "batch" {
+			if mode != "batch" && mode != "batch-retry" {
 				if n := atomic.LoadInt64(&w.txDone); n != wantCommit {
 					rep.Violation("C08|tx-complete-count|"+bodyName+"|"+mode, fmt.Sprintf("%s: tx-complete listener ran %d times, expected %d", label, n, wantCommit), replay)
 				}
